@@ -155,6 +155,7 @@ def run(tier):
                     {"key": {"site": "prove", "class": "unsatisfied_not_detected",
                              "what": adv[1]}, "scenario": sc, "observed": ob["obs"]})
         stats["%s/%s" % adv] += 1
+        ck.traces += 1
         ck.case(json.dumps([adv, [lc.strip(s) for s in sc["steps"][1:]]], sort_keys=True)[:4000],
                 nontrivial=nontrivial)
         if len(ck.samples) < 5 and adv[0] in ("force", "splice") and vi is not None:
